@@ -16,14 +16,6 @@ set_option linter.unusedSectionVars false
 namespace Glom.C09
 open Glom Glom.MV Glom.C10
 
-def isPass : Verdict → Bool
-  | .pass _ => true
-  | _ => false
-
-def isFault : Verdict → Bool
-  | .fault _ => true
-  | _ => false
-
 theorem ofArg_pass (a : Arg) (t : V) : isPass (ofArg a t) = argOK a t ∧ isFault (ofArg a t) = false := by
   cases a with
   | const v => simp [ofArg, argOK, isPass, isFault]
@@ -1128,5 +1120,655 @@ theorem dict_defaults_den (ct : ClassTable) (es : List (KeyKind × Spec × Spec)
       split at h
       · injection h with h; exact ⟨r, rfl, h.symm⟩
       · simp at h
+
+/-! ### `abc.register(k)` on the class table -/
+
+def regRow (a k : String) (r : String × List String) : String × List String :=
+  if r.2.contains k && !r.2.contains a then (r.1, r.2 ++ [a]) else r
+
+theorem regRow_fst (a k : String) (r : String × List String) : (regRow a k r).1 = r.1 := by
+  unfold regRow; split <;> rfl
+
+theorem find_map_regRow (a k c : String) (rows : ClassTable) :
+    (rows.map (regRow a k)).find? (·.1 == c) = (rows.find? (·.1 == c)).map (regRow a k) := by
+  induction rows with
+  | nil => rfl
+  | cons r rs ih =>
+    simp only [List.map_cons, List.find?_cons, regRow_fst]
+    cases (r.1 == c) <;> simp [ih]
+
+theorem registerCls_eq (ct : ClassTable) (a k : String) :
+    registerCls ct a k =
+      (if ct.any (·.1 == k) then ct else (k, ct.mro k) :: ct).map (regRow a k) := rfl
+
+theorem mro_cons_self (ct : ClassTable) (k c : String) :
+    ClassTable.mro ((k, ct.mro k) :: ct) c = ct.mro c := by
+  unfold ClassTable.mro
+  simp only [List.find?_cons]
+  by_cases h : (k == c) = true
+  · have : k = c := by simpa using h
+    subst this; simp
+  · simp [h]
+
+theorem find_isSome_of_any (ct : ClassTable) (c : String) (h : ct.any (·.1 == c) = true) :
+    ∃ r, ct.find? (·.1 == c) = some r := by
+  induction ct with
+  | nil => simp at h
+  | cons r rs ih =>
+    simp only [List.find?_cons]
+    cases hr : (r.1 == c)
+    · simp only [List.any_cons, hr, Bool.false_or] at h
+      exact ih h
+    · exact ⟨r, rfl⟩
+
+/-- after `a.register(k)` every class that has `k` in its MRO is a subclass of `a` -/
+theorem registerCls_isSub (ct : ClassTable) (a k c : String)
+    (hrow : ct.any (·.1 == c) = true ∨ c = k) (h : (ct.mro c).contains k = true) :
+    (registerCls ct a k).isSub c a = true := by
+  rw [registerCls_eq]
+  have key : ∃ r, (if ct.any (·.1 == k) then ct else (k, ct.mro k) :: ct).find? (·.1 == c) = some r ∧
+      r.2 = ct.mro c := by
+    split
+    · rename_i hk
+      have hc : ct.any (·.1 == c) = true := by
+        rcases hrow with h | h
+        · exact h
+        · subst h; exact hk
+      obtain ⟨r, hr⟩ := find_isSome_of_any ct c hc
+      exact ⟨r, hr, by unfold ClassTable.mro; rw [hr]⟩
+    · rename_i hk
+      simp only [List.find?_cons]
+      cases hkc : (k == c)
+      · have hc : ct.any (·.1 == c) = true := by
+          rcases hrow with h | h
+          · exact h
+          · subst h; simp at hkc
+        obtain ⟨r, hr⟩ := find_isSome_of_any ct c hc
+        exact ⟨r, by simp [hr], by unfold ClassTable.mro; rw [hr]⟩
+      · have : k = c := by simpa using hkc
+        subst this
+        exact ⟨_, rfl, rfl⟩
+  generalize (if ct.any (·.1 == k) then ct else (k, ct.mro k) :: ct) = rows at key
+  obtain ⟨r, hr, hm⟩ := key
+  have hmro : ClassTable.mro (rows.map (regRow a k)) c = (regRow a k r).2 := by
+    unfold ClassTable.mro
+    rw [find_map_regRow, hr]
+    simp only [Option.map_some]
+  unfold ClassTable.isSub
+  rw [hmro]
+  unfold regRow
+  rw [hm, h]
+  cases ha : (ct.mro c).contains a
+  · simp
+  · simpa [hm] using ha
+
+/-! ### calm evaluations do not fault -/
+
+theorem withDefault_noFault (d : Option Arg) (t : V) (x : D) (h : isFault x.1 = false) :
+    isFault (withDefault d t x).1 = false := by
+  obtain ⟨v, l⟩ := x
+  cases v with
+  | pass r => cases d <;> simp [withDefault, isFault]
+  | reject o =>
+    cases d with
+    | none => simp [withDefault, isFault]
+    | some a => simp only [withDefault]; exact (ofArg_pass a t).2
+  | fault c => simp [isFault] at h
+
+theorem allItems_noFault (f : V → D) (items : List V) (hf : ∀ x ∈ items, isFault (f x).1 = false) :
+    itemsFault (allItems f items) = false := by
+  induction items with
+  | nil => rfl
+  | cons x xs ih =>
+    have hx := hf x (by simp)
+    have ih' := ih (fun y hy => hf y (by simp [hy]))
+    unfold allItems
+    cases hfx : (f x).1 with
+    | pass v =>
+      simp only [hfx]
+      revert ih'
+      unfold itemsFault
+      cases (allItems f xs).1 <;> simp [Except.map]
+    | reject o => simp [hfx, itemsFault, isFault]
+    | fault c => rw [hfx] at hx; simp [isFault] at hx
+
+theorem finish_noFault (mk : List V → Verdict) (r : (Except Verdict (List V)) × Log)
+    (hmk : ∀ vs, r.1 = .ok vs → isFault (mk vs) = false) (hr : itemsFault r = false) :
+    isFault (finish mk r).1 = false := by
+  obtain ⟨rv, l⟩ := r
+  unfold finish
+  cases rv with
+  | ok vs => exact hmk vs rfl
+  | error v => cases v <;> simp_all [itemsFault, isFault]
+
+theorem defaultsRef_noFault (target : V) (ds : List (V × Arg)) (result : List (V × V)) (e : Verdict)
+    (h : defaultsRef target ds result = .error e) : isFault e = false := by
+  induction ds generalizing result with
+  | nil => simp [defaultsRef] at h
+  | cons kd ds ih =>
+    obtain ⟨k, d⟩ := kd
+    unfold defaultsRef at h
+    split at h
+    · exact ih result h
+    · have hp := (ofArg_pass d target).2
+      revert h
+      cases ho : ofArg d target with
+      | pass v => intro h; exact ih _ h
+      | reject o => intro h; injection h with h; subst h; rfl
+      | fault c => rw [ho] at hp; simp [isFault] at hp
+
+theorem dictRef_noFault (find : V → V → KeyHit × Log) (items result : List (V × V)) (seen : List Nat)
+    (hf : ∀ kv ∈ items, keyFault (find kv.1 kv.2).1 = false) :
+    ∀ e, (dictRef find items result seen).1 = .error e → isFault e = false := by
+  induction items generalizing result seen with
+  | nil => intro e h; simp [dictRef] at h
+  | cons kv rest ih =>
+    obtain ⟨k, v⟩ := kv
+    have hk := hf (k, v) (by simp)
+    intro e h
+    unfold dictRef at h
+    cases hfk : (find k v).1 with
+    | hit i k' v' =>
+      simp only [hfk] at h
+      exact ih _ _ (fun kv hkv => hf kv (by simp [hkv])) e h
+    | noKey => simp only [hfk] at h; injection h with h; subst h; rfl
+    | stop x =>
+      simp only [hfk] at h; injection h with h; subst h
+      rw [hfk] at hk
+      cases x <;> simp_all [keyFault, isFault]
+
+theorem checkWithDefault_noFault (d : Arg) (x t0 : V) (cs : List (Cond × Log)) (bad : Bool) :
+    isFault (checkWithDefault d x t0 cs bad).1 = false := by
+  induction cs generalizing bad with
+  | nil => unfold checkWithDefault; cases bad <;> simp [vreject, vpass, isFault]
+  | cons c rest ih =>
+    obtain ⟨c, l⟩ := c
+    unfold checkWithDefault
+    cases c with
+    | holds => exact ih bad
+    | fails => exact (ofArg_pass d x).2
+    | failsRaw => rfl
+    | raised => exact ih true
+
+theorem checkRef_noFault (ct : ClassTable) (a : CheckArgs) (t : V) (o : CheckObj) (h : checkInit a = .ok o) :
+    isFault (checkRef ct a t).1 = false := by
+  unfold checkRef
+  rw [h]
+  simp only
+  have go : ∀ x, isFault ((match o.default with
+      | some d => checkWithDefault d x t (checkConds ct o x) false
+      | none => checkNoDefault t (checkConds ct o x)) : D).1 = false := by
+    intro x
+    cases o.default with
+    | some d => exact checkWithDefault_noFault d x t _ false
+    | none => simp only [checkNoDefault]; split <;> rfl
+  cases o.spec with
+  | none => exact go t
+  | some e =>
+    simp only [vaccess]
+    cases tGet e t with
+    | none => rfl
+    | some x => exact go x
+
+theorem cmp_noFault (op : CmpOp) (lv rv t : V) (h : (pyCmp op lv rv).isSome = true) :
+    isFault ((match pyCmp op lv rv with
+      | some b => vcond b t
+      | none => ((.fault "TypeError", []) : D))).1 = false := by
+  cases hp : pyCmp op lv rv with
+  | none => rw [hp] at h; simp at h
+  | some b => cases b <;> simp [vcond, vpass, vreject, isFault]
+
+theorem setlike_noFault (ct : ClassTable) (frozen : Bool) (alts : List Spec) (items : List V)
+    (hcalm : ∀ x ∈ items, isFault (denAlt ct alts x).1 = false)
+    (hp : pureL alts = true) (hw : wfL items = true) (hh : items.all V.hashable = true) :
+    isFault (finish (mkSetRef frozen) (allItems (denAlt ct alts) items)).1 = false := by
+  refine finish_noFault _ _ ?_ (allItems_noFault _ _ hcalm)
+  intro vs hvs
+  have : vs = items := allItems_pure _ items
+    (fun x hx v hv => pureAlt_den ct alts x v hp (wfL_mem hw x hx) hv) vs hvs
+  subst this
+  unfold mkSetRef
+  rw [if_pos hh]; rfl
+
+mutual
+theorem calm_den (ct : ClassTable) : ∀ (p : Spec) (t : V), calm ct p t = true →
+    isFault (denote ct p t).1 = false
+  | .t e, t, _ => by
+    simp only [denote, vaccess]
+    cases tGet e t <;> rfl
+  | .val v, t, _ => rfl
+  | .mtype, t, _ => by simp only [denote, vcond]; cases truthy t <;> rfl
+  | .msub e, t, _ => by
+    simp only [denote, vaccess]
+    cases tGet e t with
+    | none => rfl
+    | some m => simp only [vcond]; cases truthy m <;> rfl
+  | .mexpr l op r, t, h => by
+    simp only [calm] at h
+    simp only [denote]
+    cases l with
+    | m =>
+      simp only [msideRef, msideVal?] at h ⊢
+      cases r with
+      | m => simp only [sideRef, sideVal?, cmpCalm] at h ⊢; exact cmp_noFault op t t t h
+      | const v => simp only [sideRef, sideVal?, cmpCalm] at h ⊢; exact cmp_noFault op t v t h
+      | sub e =>
+        simp only [sideRef, vaccess, sideVal?] at h ⊢
+        revert h
+        cases tGet e t with
+        | none => intro _; rfl
+        | some rv => intro h; simp only [cmpCalm] at h; exact cmp_noFault op t rv t h
+    | sub e' =>
+      simp only [msideRef, vaccess, msideVal?] at h ⊢
+      revert h
+      cases tGet e' t with
+      | none => intro _; rfl
+      | some lv =>
+        intro h
+        simp only at h ⊢
+        cases r with
+        | m => simp only [sideRef, sideVal?, cmpCalm] at h ⊢; exact cmp_noFault op lv t t h
+        | const v => simp only [sideRef, sideVal?, cmpCalm] at h ⊢; exact cmp_noFault op lv v t h
+        | sub e =>
+          simp only [sideRef, vaccess, sideVal?] at h ⊢
+          revert h
+          cases tGet e t with
+          | none => intro _; rfl
+          | some rv => intro h; simp only [cmpCalm] at h; exact cmp_noFault op lv rv t h
+  | .and cs d, t, h => by
+    simp only [calm] at h
+    simp only [denote]
+    exact withDefault_noFault d t _ (calmAll_den ct cs t t h)
+  | .or cs d, t, h => by
+    simp only [calm] at h
+    simp only [denote]
+    exact withDefault_noFault d t _ (calmAny_den ct cs t h)
+  | .not c, t, h => by
+    simp only [calm] at h
+    simp only [denote]
+    have ih := calm_den ct c t h
+    cases hv : (denote ct c t).1 with
+    | pass v => rfl
+    | reject o => rfl
+    | fault x => rw [hv] at ih; simp [isFault] at ih
+  | .switch cases d, t, h => by
+    simp only [calm] at h
+    simp only [denote]
+    exact calmCases_den ct cases d t h
+  | .check a, t, h => by
+    simp only [calm] at h
+    simp only [denote]
+    cases hi : checkInit a with
+    | error e => rw [hi] at h; simp at h
+    | ok o => exact checkRef_noFault ct a t o hi
+  | .regex items f, t, _ => by
+    simp only [denote]
+    cases t with
+    | str s => simp only [vcond]; cases reMatches items f s <;> rfl
+    | _ => rfl
+  | .matchS s d, t, h => by
+    simp only [calm] at h
+    simp only [denote]
+    exact withDefault_noFault d t _ (calm_den ct s t h)
+  | .ty n, t, _ => by simp only [denote]; cases isInst ct t n <;> rfl
+  | .lit v, t, _ => by simp only [denote, vcond]; cases pyEq t v <;> rfl
+  | .pred id fn, t, _ => by
+    simp only [denote]
+    cases predApply fn t with
+    | ret v => simp only; cases truthy v <;> rfl
+    | raise c => rfl
+  | .list alts, t, h => by
+    simp only [denote]
+    cases t with
+    | list items =>
+      simp only [calm, List.all_eq_true] at h
+      simp only
+      exact finish_noFault _ _ (fun vs _ => rfl)
+        (allItems_noFault _ _ (fun x hx => calmAlt_den ct alts x (h x hx)))
+    | _ => rfl
+  | .set alts, t, h => by
+    simp only [denote]
+    cases t with
+    | set items =>
+      simp only [calm, Bool.and_eq_true] at h
+      obtain ⟨⟨⟨h1, h2⟩, h3⟩, h4⟩ := h
+      rw [List.all_eq_true] at h1
+      simp only
+      exact setlike_noFault ct false alts items (fun x hx => calmAlt_den ct alts x (h1 x hx)) h2 h3 h4
+    | _ => rfl
+  | .fset alts, t, h => by
+    simp only [denote]
+    cases t with
+    | fset items =>
+      simp only [calm, Bool.and_eq_true] at h
+      obtain ⟨⟨⟨h1, h2⟩, h3⟩, h4⟩ := h
+      rw [List.all_eq_true] at h1
+      simp only
+      exact setlike_noFault ct true alts items (fun x hx => calmAlt_den ct alts x (h1 x hx)) h2 h3 h4
+    | _ => rfl
+  | .tuple ps, t, h => by
+    simp only [denote]
+    cases t with
+    | tuple items =>
+      simp only [calm] at h
+      simp only
+      split
+      · rfl
+      · exact finish_noFault _ _ (fun vs _ => rfl) (calmZip_den ct ps items h)
+    | _ => rfl
+  | .dict es, t, h => by
+    simp only [denote]
+    cases t with
+    | dict items =>
+      simp only [calm, List.all_eq_true] at h
+      simp only
+      have hkeys : ∀ kv ∈ items, keyFault (denKey ct es 0 kv.1 kv.2).1 = false :=
+        fun kv hkv => calmKey_den ct es 0 kv.1 kv.2 (h kv hkv)
+      have hnf := dictRef_noFault (denKey ct es 0) items [] [] hkeys
+      cases hr : (dictRef (denKey ct es 0) items [] []).1 with
+      | error v => simp only; exact hnf v hr
+      | ok p =>
+        obtain ⟨result, seen⟩ := p
+        simp only
+        cases hdr : defaultsRef (.dict items) (dictDefaults es) result with
+        | error v => simp only; exact defaultsRef_noFault _ _ _ v hdr
+        | ok r' => simp only; split <;> rfl
+    | _ => rfl
+
+theorem calmAll_den (ct : ClassTable) : ∀ (cs : List Spec) (t r : V), calmL ct cs t = true →
+    isFault (denAll ct cs t r).1 = false
+  | [], t, r, _ => rfl
+  | c :: cs, t, r, h => by
+    simp only [calmL, Bool.and_eq_true] at h
+    have ih := calm_den ct c t h.1
+    simp only [denAll]
+    cases hv : (denote ct c t).1 with
+    | pass v => simp only; exact calmAll_den ct cs t v h.2
+    | reject o => simp only; rw [hv]; rfl
+    | fault x => rw [hv] at ih; simp [isFault] at ih
+
+theorem calmAny_den (ct : ClassTable) : ∀ (cs : List Spec) (t : V), calmL ct cs t = true →
+    isFault (denAny ct cs t).1 = false
+  | [], t, _ => rfl
+  | [c], t, h => by
+    simp only [calmL, Bool.and_eq_true] at h
+    simp only [denAny]
+    exact calm_den ct c t h.1
+  | c :: c' :: cs, t, h => by
+    have h' := h
+    simp only [calmL, Bool.and_eq_true] at h
+    have ih := calm_den ct c t h.1
+    rw [denAny]
+    cases hv : (denote ct c t).1 with
+    | pass v => simp only; rw [hv]; rfl
+    | reject o =>
+      simp only
+      exact calmAny_den ct (c' :: cs) t (by simp [calmL, h.2.1, h.2.2])
+    | fault x => rw [hv] at ih; simp [isFault] at ih
+
+theorem calmAlt_den (ct : ClassTable) : ∀ (alts : List Spec) (x : V), calmL ct alts x = true →
+    isFault (denAlt ct alts x).1 = false
+  | [], x, _ => rfl
+  | [c], x, h => by
+    simp only [calmL, Bool.and_eq_true] at h
+    simp only [denAlt]
+    exact calm_den ct c x h.1
+  | c :: c' :: cs, x, h => by
+    simp only [calmL, Bool.and_eq_true] at h
+    have ih := calm_den ct c x h.1
+    rw [denAlt]
+    cases hv : (denote ct c x).1 with
+    | pass v => simp only; rw [hv]; rfl
+    | reject o =>
+      simp only
+      exact calmAlt_den ct (c' :: cs) x (by simp [calmL, h.2.1, h.2.2])
+    | fault y => rw [hv] at ih; simp [isFault] at ih
+
+theorem calmCases_den (ct : ClassTable) : ∀ (cases : List (Spec × Spec)) (d : Option Arg) (t : V),
+    calmC ct cases t = true → isFault (denCases ct cases d t).1 = false
+  | [], d, t, _ => by
+    simp only [denCases]
+    exact withDefault_noFault d t _ rfl
+  | (k, v) :: rest, d, t, h => by
+    simp only [calmC, Bool.and_eq_true] at h
+    have ih := calm_den ct k t h.1.1
+    simp only [denCases]
+    cases hv : (denote ct k t).1 with
+    | pass r => simp only; exact calm_den ct v t h.1.2
+    | reject o => simp only; exact calmCases_den ct rest d t h.2
+    | fault x => rw [hv] at ih; simp [isFault] at ih
+
+theorem calmZip_den (ct : ClassTable) : ∀ (ps : List Spec) (xs : List V), calmZ ct ps xs = true →
+    itemsFault (denZip ct ps xs) = false
+  | [], xs, _ => by simp [denZip, itemsFault]
+  | _ :: _, [], _ => by simp [denZip, itemsFault]
+  | p :: ps, x :: xs, h => by
+    simp only [calmZ, Bool.and_eq_true] at h
+    have ih := calm_den ct p x h.1
+    have ih2 := calmZip_den ct ps xs h.2
+    simp only [denZip]
+    cases hv : (denote ct p x).1 with
+    | pass v =>
+      simp only
+      revert ih2
+      unfold itemsFault
+      cases (denZip ct ps xs).1 <;> simp [Except.map]
+    | reject o => simp [itemsFault]
+    | fault y => rw [hv] at ih; simp [isFault] at ih
+
+theorem calmKey_den (ct : ClassTable) : ∀ (es : List (KeyKind × Spec × Spec)) (i : Nat) (key val : V),
+    calmD ct es key val = true → keyFault (denKey ct es i key val).1 = false
+  | [], i, key, val, _ => rfl
+  | (kind, ks, vs) :: es, i, key, val, h => by
+    simp only [calmD, Bool.and_eq_true] at h
+    obtain ⟨hk, hr⟩ := h
+    have ihr := calmKey_den ct es (i + 1) key val hr
+    have core : ∀ kr : D, isFault kr.1 = false → (isPass kr.1 = true → calm ct vs val = true) →
+        keyFault ((match kr.1 with
+           | .pass k' =>
+             (match (denote ct vs val).1 with
+              | .pass v' => (KeyHit.hit i k' v', kr.2 ++ (denote ct vs val).2)
+              | other => (.stop other, kr.2 ++ (denote ct vs val).2))
+           | .reject _ => ((denKey ct es (i + 1) key val).1, kr.2 ++ (denKey ct es (i + 1) key val).2)
+           | .fault c => (.stop (.fault c), kr.2)) : KeyHit × Log).1 = false := by
+      intro kr hkr hval
+      cases hkv : kr.1 with
+      | pass k' =>
+        simp only
+        have ihv := calm_den ct vs val (hval (by rw [hkv]; rfl))
+        cases hvv : (denote ct vs val).1 with
+        | pass v' => rfl
+        | reject o => rfl
+        | fault c => rw [hvv] at ihv; simp [isFault] at ihv
+      | reject o => simp only; exact ihr
+      | fault c => rw [hkv] at hkr; simp [isFault] at hkr
+    simp only [denKey]
+    cases ho : optKey kind ks with
+    | some k =>
+      rw [ho] at hk
+      simp only at hk ⊢
+      refine core (vcond (pyEq key k) key) (by cases pyEq key k <;> rfl) ?_
+      intro hp
+      cases hpe : pyEq key k with
+      | true => simpa [hpe] using hk
+      | false => rw [hpe] at hp; simp [vcond, vreject, isPass] at hp
+    | none =>
+      rw [ho] at hk
+      simp only [Bool.and_eq_true] at hk ⊢
+      refine core (denote ct ks key) (calm_den ct ks key hk.1) ?_
+      intro hp
+      simpa [hp] using hk.2
+end
+
+/-! ### the regex engine of the model decides membership in the declared language -/
+
+/-- remainders after one or more further characters of the class -/
+theorem spanRems_iff (c : CharCls) (xs u : List Char) :
+    u ∈ spanRems c xs ↔ ∃ y ys, c.matches y = true ∧ ys.all c.matches = true ∧ xs = y :: ys ++ u := by
+  induction xs with
+  | nil => simp [spanRems]
+  | cons x xs ih =>
+    unfold spanRems
+    by_cases hx : c.matches x = true
+    · rw [if_pos hx, List.mem_cons, ih]
+      constructor
+      · rintro (h | ⟨y, ys, hy, hall, heq⟩)
+        · exact ⟨x, [], hx, rfl, by simp [h]⟩
+        · exact ⟨x, y :: ys, hx, by simp [hy, hall], by simp [heq]⟩
+      · rintro ⟨y, ys, hy, hall, heq⟩
+        simp only [List.cons_append, List.cons.injEq] at heq
+        obtain ⟨rfl, heq⟩ := heq
+        cases ys with
+        | nil => left; simpa using heq.symm
+        | cons y' ys' =>
+          right
+          simp only [List.all_cons, Bool.and_eq_true] at hall
+          exact ⟨y', ys', hall.1, hall.2, by simpa using heq⟩
+    · rw [if_neg hx]
+      simp only [List.not_mem_nil, false_iff]
+      rintro ⟨y, ys, hy, _, heq⟩
+      simp only [List.cons_append, List.cons.injEq] at heq
+      obtain ⟨rfl, _⟩ := heq
+      exact hx hy
+
+/-- the engine's remainders are exactly the suffixes left by a prefix in the language -/
+theorem reRems_iff : ∀ (items : List ReItem) (s u : List Char),
+    u ∈ reRems items s ↔ ∃ pre, ReLang items pre ∧ s = pre ++ u
+  | [], s, u => by
+    simp only [reRems, List.mem_singleton]
+    constructor
+    · intro h; exact ⟨[], .nil, by simp [h]⟩
+    · rintro ⟨pre, hl, heq⟩
+      cases hl; simpa using heq.symm
+  | it :: its, s, u => by
+    simp only [reRems, List.mem_flatMap]
+    constructor
+    · rintro ⟨a, ha, hu⟩
+      obtain ⟨pre, hpre, heq⟩ := (reRems_iff its a u).mp hu
+      cases s with
+      | nil => simp at ha
+      | cons x xs =>
+        simp only at ha
+        by_cases hx : it.cls.matches x = true
+        · rw [if_pos hx] at ha
+          cases hp : it.plus with
+          | false =>
+            rw [hp] at ha
+            simp only [Bool.false_eq_true, if_false, List.mem_singleton] at ha
+            subst ha
+            exact ⟨x :: pre, .one it its x pre hp hx hpre, by simp [heq]⟩
+          | true =>
+            rw [hp] at ha
+            simp only [if_true, List.mem_cons] at ha
+            rcases ha with ha | ha
+            · subst ha
+              exact ⟨x :: [] ++ pre, .plus it its x [] pre hp hx rfl hpre, by simp [heq]⟩
+            · obtain ⟨y, ys, hy, hall, hxs⟩ := (spanRems_iff it.cls xs a).mp ha
+              exact ⟨x :: (y :: ys) ++ pre, .plus it its x (y :: ys) pre hp hx (by simp [hy, hall]) hpre,
+                by simp [hxs, heq]⟩
+        · rw [if_neg hx] at ha; simp at ha
+    · rintro ⟨pre, hl, heq⟩
+      cases hl with
+      | one _ _ c rest hp hc hrest =>
+        subst heq
+        refine ⟨rest ++ u, ?_, (reRems_iff its (rest ++ u) u).mpr ⟨rest, hrest, rfl⟩⟩
+        simp [hc, hp]
+      | plus _ _ c cs rest hp hc hall hrest =>
+        subst heq
+        refine ⟨rest ++ u, ?_, (reRems_iff its (rest ++ u) u).mpr ⟨rest, hrest, rfl⟩⟩
+        simp only [List.cons_append, List.append_assoc, hc, hp, if_true, List.mem_cons]
+        cases cs with
+        | nil => left; simp
+        | cons y ys =>
+          right
+          simp only [List.all_cons, Bool.and_eq_true] at hall
+          exact (spanRems_iff it.cls _ _).mpr ⟨y, ys, hall.1, hall.2, by simp⟩
+
+theorem mem_tailsOf (s u : List Char) : u ∈ tailsOf s ↔ ∃ a, s = a ++ u := by
+  induction s with
+  | nil =>
+    simp only [tailsOf, List.mem_singleton]
+    constructor
+    · intro h; exact ⟨[], by simp [h]⟩
+    · rintro ⟨a, h⟩
+      have := congrArg List.length h
+      simp at this
+      exact List.eq_nil_of_length_eq_zero (by omega)
+  | cons x xs ih =>
+    simp only [tailsOf, List.mem_cons, ih]
+    constructor
+    · rintro (h | ⟨a, h⟩)
+      · exact ⟨[], by simp [h]⟩
+      · exact ⟨x :: a, by simp [h]⟩
+    · rintro ⟨a, h⟩
+      cases a with
+      | nil => left; simpa using h.symm
+      | cons y ys =>
+        right
+        simp only [List.cons_append, List.cons.injEq] at h
+        exact ⟨ys, h.2⟩
+
+theorem reMatches_iff (items : List ReItem) (f : ReFunc) (s : String) :
+    reMatches items f s = true ↔ reAccepts items f s.toList := by
+  cases f with
+  | fullmatch =>
+    simp only [reMatches, reAccepts, List.any_eq_true]
+    constructor
+    · rintro ⟨u, hu, he⟩
+      obtain ⟨pre, hl, heq⟩ := (reRems_iff items _ u).mp hu
+      have : u = [] := by simpa using he
+      subst this
+      simpa [heq] using hl
+    · intro h
+      exact ⟨[], (reRems_iff items _ []).mpr ⟨_, h, by simp⟩, rfl⟩
+  | match_ =>
+    simp only [reMatches, reAccepts]
+    constructor
+    · intro h
+      cases hr : reRems items s.toList with
+      | nil => simp [hr] at h
+      | cons u us =>
+        obtain ⟨pre, hl, heq⟩ := (reRems_iff items _ u).mp (by rw [hr]; simp)
+        exact ⟨pre, u, hl, heq⟩
+    · rintro ⟨pre, suf, hl, heq⟩
+      have : suf ∈ reRems items s.toList := (reRems_iff items _ suf).mpr ⟨pre, hl, heq⟩
+      cases hr : reRems items s.toList with
+      | nil => rw [hr] at this; simp at this
+      | cons u us => simp
+  | search =>
+    simp only [reMatches, reAccepts, List.any_eq_true]
+    constructor
+    · rintro ⟨u, hu, hne⟩
+      obtain ⟨a, ha⟩ := (mem_tailsOf _ u).mp hu
+      cases hr : reRems items u with
+      | nil => simp [hr] at hne
+      | cons w ws =>
+        obtain ⟨pre, hl, heq⟩ := (reRems_iff items u w).mp (by rw [hr]; simp)
+        exact ⟨a, pre, w, hl, by rw [ha, heq]⟩
+    · rintro ⟨a, pre, suf, hl, heq⟩
+      refine ⟨pre ++ suf, (mem_tailsOf _ _).mpr ⟨a, heq⟩, ?_⟩
+      have : suf ∈ reRems items (pre ++ suf) := (reRems_iff items _ suf).mpr ⟨pre, hl, rfl⟩
+      cases hr : reRems items (pre ++ suf) with
+      | nil => rw [hr] at this; simp at this
+      | cons u us => simp
+
+/-- `Match(p)` without a default re-raises whatever `p` raised -/
+theorem matchGlom_none (env : Env) (p : Spec) (t : V) : matchGlom env p none t = eval env p t := by
+  simp only [matchGlom, eval]
+  cases h : (eval env p t).1 with
+  | ok v => rfl
+  | error e => simp only; split <;> rfl
+
+/-! ### the model's `precedence` satisfies the extracted if-chain -/
+
+theorem maxOver_prec : ∀ ps : List Spec, maxOver precedence ps = precedenceL ps
+  | [] => by simp [maxOver, precedenceL]
+  | p :: ps => by simp [maxOver, precedenceL, maxOver_prec ps]
+
+theorem precStep_expected (kind : KeyKind) (s : Spec) :
+    precStep precedence expectedPrecedence kind s = some (precedence s) := by
+  cases s <;> cases kind <;>
+    simp [precStep, precTest, precAct, expectedPrecedence, precedence, glomitOrCallable, itemsOf, maxOver_prec,
+      kindIsPlain, isTupleOrFset, isTypeObj, objGlomitOrCallable]
 
 end Glom.C09
